@@ -229,3 +229,110 @@ N('ctor-helper', [(LIB, '''    pub fn new_partial(setup: impl Clause) -> Self {
 N('macro-rename-internal-fn', [('re:unimock_macros/src', r'\brender_diagnostics_stmt\b', 'diagnostics_stmt')])
 N('noop-binding', [(EV, '''        match self.match_call_pattern(fn_mocker, match_inputs)? {''', '''        let selected = self.match_call_pattern(fn_mocker, match_inputs)?;
         match selected {''')])
+
+# ---- third batch -------------------------------------------------------------------------------------------------------
+VC = 'src/value_chain.rs'
+CP = 'src/call_pattern.rs'
+N('chain-push-node-while', [(VC, '''        let mut cell = &self.root;
+        loop {
+            match cell.try_insert(new_node) {
+                Ok(new_node) => {
+                    return new_node;
+                }
+                Err((parent_node, node)) => {
+                    new_node = node;
+                    cell = &parent_node.next;
+                }
+            }
+        }''', '''        let mut cell = &self.root;
+        loop {
+            let (occupant, rejected) = match cell.try_insert(new_node) {
+                Ok(inserted) => return inserted,
+                Err(pair) => pair,
+            };
+            new_node = rejected;
+            cell = &occupant.next;
+        }''')])
+N('chain-drop-loop', [(VC, '''        if let Some(node) = self.root.take() {
+            drop(node.value);
+            let mut cell = node.next;
+
+            while let Some(node) = cell.take() {
+                drop(node.value);
+                cell = node.next;
+            }
+        }''', '''        let mut next = self.root.take();
+        while let Some(node) = next {
+            drop(node.value);
+            let mut cell = node.next;
+            next = cell.take();
+        }''')])
+N('chain-push-value-inline', [(VC, '''        let node = self.push_node(Node::new(value));
+
+        &node.value''', '''        &self.push_node(Node::new(value)).value''')])
+N('next-responder-local', [(CP, '''        find_responder_by_call_index(&self.responders, self.call_counter.fetch_add())''', '''        let call_index = self.call_counter.fetch_add();
+        find_responder_by_call_index(&self.responders, call_index)''')])
+N('responder-lookup-match', [(CP, '''    Some(match index_result {
+        Ok(index) => &responders[index].responder,
+        Err(insert_index) => &responders[insert_index - 1].responder,''', '''    Some(match index_result {
+        Err(insert_index) => &responders[insert_index - 1].responder,
+        Ok(index) => &responders[index].responder,''')])
+N('debug-location-match', [(CP, '''        if let Some(debug) = self.input_matcher.matcher_debug {
+            debug::CallPatternLocation::Debug(debug)
+        } else {
+            debug::CallPatternLocation::PatIndex(pat_index)
+        }''', '''        match self.input_matcher.matcher_debug {
+            Some(debug) => debug::CallPatternLocation::Debug(debug),
+            None => debug::CallPatternLocation::PatIndex(pat_index),
+        }''')])
+N('clone-field-order', [(LIB, '''            shared_state: self.shared_state.clone(),
+            value_chain: Default::default(),
+            default_impl_delegator_cell: Default::default(),
+            original_instance: false,
+            torn_down: false,
+            verify_in_drop: self.verify_in_drop,
+            #[cfg(not(feature = "std"))]
+            panicked: private::MutexIsh::new(false),
+        }
+    }
+}
+
+impl AsRef<DefaultImplDelegator> for Unimock {''', '''            original_instance: false,
+            torn_down: false,
+            verify_in_drop: self.verify_in_drop,
+            shared_state: alloc::Arc::clone(&self.shared_state),
+            value_chain: value_chain::ValueChain::default(),
+            default_impl_delegator_cell: Default::default(),
+            #[cfg(not(feature = "std"))]
+            panicked: private::MutexIsh::new(false),
+        }
+    }
+}
+
+impl AsRef<DefaultImplDelegator> for Unimock {''')])
+N('as-ref-inline', [(LIB, '''        let delegator = self
+            .default_impl_delegator_cell
+            .get_or_init(|| alloc::Box::new(DefaultImplDelegator::__from_unimock(self.clone())));
+        delegator.as_ref()''', '''        self.default_impl_delegator_cell
+            .get_or_init(|| alloc::Box::new(DefaultImplDelegator::__from_unimock(self.clone())))''')])
+N('rename-module', [('mv:', 'src/fn_mocker.rs', 'src/method_mocker.rs'), ('re:src', r'\bfn_mocker::', 'method_mocker::'), ('re:src', r'\bmod fn_mocker;', 'mod method_mocker;')])
+N('rename-variant', [('re:src', r'\bAtLeastPlusOne\b', 'MoreThan')])
+N('rename-enum', [('re:src', r'\bExactness\b', 'CountKind')])
+N('teardown-early-exit-order', [(TD, '''    // skip verification if the thread panicked for any other reason.
+    #[cfg(feature = "std")]
+    if std::thread::panicking() {
+        return Ok(());
+    }
+
+    let strong_count = Arc::strong_count(&unimock.shared_state);
+
+    if strong_count > 1 {''', '''    // skip verification if the thread panicked for any other reason.
+    #[cfg(feature = "std")]
+    {
+        let unwinding = std::thread::panicking();
+        if unwinding {
+            return Ok(());
+        }
+    }
+
+    if Arc::strong_count(&unimock.shared_state) > 1 {''')])
